@@ -280,7 +280,7 @@ pub fn run_job(job: &Job) -> JobResult {
     res.wall_ms = t0.elapsed().as_millis() as u64;
     if !job.no_reporter {
         let st = stats();
-        res.recycle = st.buffered > 100_000 || st.active > 5_000 || st.danglings > 100_000;
+        res.recycle = st.buffered > 100_000 || st.active > 5_000 || st.danglings > 100_000 || st.receivers > 64;
     }
     res
 }
